@@ -1,7 +1,7 @@
 """Property -> rules.  The explanation/assumption texts end up in the evidence files."""
 from .rules import dtype, evalnodes, executor, aggregates, eqfaith, compiler_rules as cr
 from .rules import cursor_rules as cu, library_rules as lib, state_rules as st, grammar_rules as gr
-from .rules import table_rules as tb, clause_rules as cl, sx_exec as sx, sx_cursor as sxc, sx_compiler as sxk, sx_select as sxs, sx_pivot as sxp, sx_tables as sxt, sx_numberify as sxn
+from .rules import table_rules as tb, clause_rules as cl, sx_exec as sx, sx_cursor as sxc, sx_compiler as sxk, sx_select as sxs, sx_pivot as sxp, sx_tables as sxt, sx_numberify as sxn, sx_state as sxst
 
 TRUSTED_ABSINT = [
     "Python/library semantics of operators, attributes, methods and whitelisted callables are obtained by applying "
@@ -54,7 +54,7 @@ PROPS = {
             "appended (R-HIDDEN). Does not decide numeric values of folds nor hashing/equality of key values."),
         'assumptions': TRUSTED_STRUCT,
         'quick': [sxs.rule_aggproto, aggregates.rule_aggclass, eqfaith.rule_eqfaith, sxk.rule_idxbound, cr.rule_hidden],
-        'thorough': [],
+        'thorough': [sxs.rule_aggproto_deep, sxk.rule_idxbound_deep],
     },
     'C03': {
         'level': 'other',
@@ -72,7 +72,7 @@ PROPS = {
         'assumptions': TRUSTED_STRUCT,
         'quick': [sxs.rule_pipeline, sxs.rule_sortskel, sx.rule_nullkey, eqfaith.rule_eqfaith,
                   sxk.rule_idxbound, cr.rule_hidden],
-        'thorough': [],
+        'thorough': [sxs.rule_sortskel_deep, sxk.rule_idxbound_deep],
     },
     'C04': {
         'level': 'other',
@@ -112,8 +112,8 @@ PROPS = {
         'assumptions': TRUSTED_STRUCT + TRUSTED_ABSINT[:1],
         'quick': [cr.rule_raise, cr.rule_guards, cr.rule_targetchk, cr.rule_guard_typesafe, sxk.rule_idxbound,
                   cr.rule_opresolve, cr.rule_partial, cr.rule_foldsafe, cr.rule_exhaustive, cr.rule_exctree,
-                  eqfaith.rule_eqfaith, sxk.rule_coalesce, sxk.rule_implicitcast],
-        'thorough': [],
+                  eqfaith.rule_eqfaith, sxk.rule_coalesce, sxk.rule_implicitcast, sxst.rule_placeholder, sxk.rule_fromclause, sxk.rule_inop],
+        'thorough': [sxk.rule_idxbound_deep],
     },
     'C06': {
         'level': 'translation_validation',
@@ -133,7 +133,7 @@ PROPS = {
         'assumptions': ["TatSu's code generator (5.7.x, the version range pyproject.toml pins) is deterministic and "
                         "faithful to its input grammar", "no BQL text is parsed by the check"],
         'technique': 'translation validation (regenerate and compare syntax trees) + grammar-model analysis',
-        'quick': [gr.rule_regen, gr.rule_precmatrix, gr.rule_astfields, gr.rule_semantics, gr.rule_shadow, gr.rule_keywords, gr.rule_lexlang],
+        'quick': [gr.rule_regen, gr.rule_precmatrix, gr.rule_astfields, gr.rule_semantics, gr.rule_shadow, gr.rule_keywords, gr.rule_lexlang, st.rule_parsefresh],
         'thorough': [gr.rule_lexspec],
     },
     'C07': {
@@ -162,8 +162,8 @@ PROPS = {
             "single-column guard exists (R-GUARDS) and the IN node is NULL-propagating (R-NULLSTRICT). Does not decide "
             "equality of nested and materialised results in general."),
         'assumptions': TRUSTED_STRUCT,
-        'quick': [st.rule_reentrant, cr.rule_visfilter, eqfaith.rule_eqfaith, cr.rule_guards, evalnodes.rule_nullstrict,
-                  sx.rule_subq1d],
+        'quick': [sxst.rule_reentrant, cr.rule_visfilter, eqfaith.rule_eqfaith, cr.rule_guards, evalnodes.rule_nullstrict,
+                  sx.rule_subq1d, sxk.rule_inop],
         'thorough': [],
     },
     'C09': {
@@ -182,7 +182,7 @@ PROPS = {
             "instantiated; attributes named entries/options/entry/posting/postings/meta/price_map hold caller-owned ledger data; "
             "parameters named node/query/statement/... in the compiler and cursor are caller-owned",
             "TatSu, beancount and dateutil internals perform no shared writes (summarised, not analysed)"],
-        'quick': [st.rule_inputmut, st.rule_shared, st.rule_foldpure, st.rule_placeholder],
+        'quick': [st.rule_inputmut, st.rule_shared, st.rule_foldpure, sxst.rule_placeholder],
         'thorough': [],
     },
     'C10': {
@@ -262,7 +262,7 @@ PROPS = {
             "the call graph is over-approximated: every function of the non-front-end modules that is not import-only is "
             "treated as execution-reachable",
             "TatSu, beancount and dateutil internals perform no shared writes (summarised, not analysed)"],
-        'quick': [st.rule_shared, st.rule_tablecopy, st.rule_onceperrow, cu.rule_modconst, sxc.rule_freshcursor],
+        'quick': [st.rule_shared, sxst.rule_tablecopy, st.rule_onceperrow, cu.rule_modconst, sxc.rule_freshcursor],
         'thorough': [],
     },
     'C11': {
@@ -298,7 +298,7 @@ PROPS = {
             "decided: balance preservation, carried-forward Equity postings, balancing of returned transactions - "
             "properties of beancount.ops.summarize over ledger values."),
         'assumptions': TRUSTED_STRUCT,
-        'quick': [cl.rule_callorder, executor.rule_fromand, sxk.rule_fromclause, cr.rule_guards, cr.rule_guard_typesafe, st.rule_tablecopy,
+        'quick': [cl.rule_callorder, executor.rule_fromand, sxk.rule_fromclause, cr.rule_guards, cr.rule_guard_typesafe, sxst.rule_tablecopy,
                   cl.rule_defaultclose],
         'thorough': [],
     },
@@ -329,7 +329,7 @@ PROPS = {
             "rewrite ends in ANALYSIS-ERROR, not a verdict). NOT decided: the index arithmetic for all key sets."),
         'assumptions': TRUSTED_STRUCT,
         'quick': [sxk.rule_idxbound, cr.rule_guard_typesafe, cr.rule_guards, sxp.rule_pivotshape],
-        'thorough': [],
+        'thorough': [sxp.rule_pivotshape_deep, sxk.rule_idxbound_deep],
     },
     'C19': {
         'level': 'other',
@@ -344,7 +344,7 @@ PROPS = {
             "(R-EXHAUSTIVE). Does not decide byte equality of shell output with the renderer (the same function is "
             "called), pager behaviour or history."),
         'assumptions': TRUSTED_STRUCT,
-        'quick': [cl.rule_settings, cl.rule_optused, cl.rule_dispatch, cl.rule_defaultclose, cr.rule_exhaustive],
+        'quick': [cl.rule_settings, cl.rule_optused, cl.rule_dispatch, cl.rule_defaultclose, cr.rule_exhaustive, st.rule_parsefresh],
         'thorough': [],
     },
 }
